@@ -187,6 +187,11 @@ func (s *Session) execCallWith(st *State, c *ssa.CallCommon, fnv Value, args []V
 			s.inlineCall(st, callee, bind, args, pos, k)
 			return
 		}
+		if dc := s.defaultLibContract(callee, pkg, rel); dc != nil {
+			s.note("package-default library contract (no effect on modelled memory, no panic, arbitrary results) for " + qn)
+			s.applyContract(st, dc, callee, sig, args, qn, pos, k)
+			return
+		}
 		fatalf("%s: call of external function %s without a libspec entry (at %s)", s.name, qn, s.P.pos(pos))
 	}
 	if s.sweep {
@@ -195,6 +200,8 @@ func (s *Session) execCallWith(st *State, c *ssa.CallCommon, fnv Value, args []V
 		k(st, s.freshResults(st, sig, rel))
 		return
 	}
+	// (a havoc-all default here was tried: one missing contract then fails dozens of unrelated
+	// obligations by time-out; the single binding failure below is the clearer report)
 	fatalf("%s: callee %s has no contract and cannot be inlined (at %s)", s.name, qn, s.P.pos(pos))
 }
 
@@ -503,4 +510,51 @@ func (s *Session) goCount(st *State, name string) {
 		cur = TZero
 	}
 	st.counts[key] = Add(cur, IntLit(1))
+}
+
+// neutralPkgs: library packages whose functions neither write memory the program can observe
+// through its own types nor call back into the program (functions taking func/chan/non-empty
+// interface parameters are excluded below). A function of such a package without an explicit
+// libspec entry gets the default entry, so that an added strings.X or logrus.Debugf call is not a
+// tool error. Packages with ghost state in libspec (bytes, sync, context) and packages that write
+// through their arguments (sort, io, bufio) are deliberately absent.
+var neutralPkgs = map[string]bool{
+	"strings": true, "strconv": true, "unicode": true, "unicode/utf8": true, "math": true, "math/bits": true,
+	"path": true, "path/filepath": true, "time": true, "errors": true, "fmt": true, "regexp": true,
+	"github.com/sirupsen/logrus": true,
+}
+
+func (s *Session) defaultLibContract(callee *ssa.Function, pkg, rel string) *Contract {
+	if callee == nil || !neutralPkgs[pkg] {
+		return nil
+	}
+	name := callee.Name()
+	if pkg == "fmt" && strings.Contains(name, "scan") || pkg == "fmt" && strings.Contains(name, "Scan") || pkg == "errors" && name == "As" {
+		return nil // write through their arguments
+	}
+	sig := callee.Signature
+	bad := func(t types.Type) bool {
+		if sl, ok := t.Underlying().(*types.Slice); ok {
+			t = sl.Elem()
+		}
+		switch u := t.Underlying().(type) {
+		case *types.Signature, *types.Chan:
+			return true
+		case *types.Interface:
+			if u.NumMethods() == 0 {
+				return false
+			}
+			if n, ok := t.(*types.Named); ok && n.Obj().Pkg() == nil && n.Obj().Name() == "error" {
+				return false
+			}
+			return true
+		}
+		return false
+	}
+	for i := 0; i < sig.Params().Len(); i++ {
+		if bad(sig.Params().At(i).Type()) {
+			return nil
+		}
+	}
+	return &Contract{Pkg: pkg, Func: rel, Flags: map[string]bool{}, Waive: map[string]string{}, File: "package default", Line: 0}
 }
